@@ -194,6 +194,9 @@ def strhex2float(x, signed=True, n_word=None, n_frac=None, return_sizes=False):
         return val
 
 def str2num(x, signed=True, n_word=None, n_frac=None, base=10, return_sizes=False):
+    if isinstance(x, np.ndarray) and x.dtype.kind in 'US':
+        x = x.tolist()  # arrays of strings (like rows returned by bin() or hex() of a 2-dim Fxp)
+
     if isinstance(x, (list, tuple)):
         _signed_max = False
         _n_word_max = None
